@@ -13,6 +13,8 @@ ASSUME = [
     "packed address bytes of a literal are computed with Python's ipaddress module (independent of socks.py's inet_pton/inet_aton calls)",
     "RESOLVE of an IP literal may be sent either as a domain-typed request carrying the literal's text or as an address-typed request",
     "RESOLVE/RESOLVE_PTR requests carry port 0 (the API takes no port)",
+    "every 4th vector is answered with a method selection other than 'no authentication in one segment' (split in two segments, "
+    "method 1, method 2, no acceptable method, wrong version): a request may follow only a complete selection of method 0",
     "reverse lookups of text that inet_aton accepts as a legacy numeric IPv4 form ('5', '1.2') are not generated as hostnames",
 ]
 PORTS = [0, 1, 80, 255, 256, 257, 4660, 32767, 32768, 65279, 65280, 65534, 65535]
@@ -77,11 +79,14 @@ def vectors(tier, seed):
             vs.append(("CONNECT", "v6", a, p))
         vs.append(("RESOLVE_PTR", "v6", a, 0))
         vs.append(("RESOLVE", "v6", a, 0))
+    # the server's method selection: mostly 'no authentication' in one segment; every 4th vector another reply
+    sels = ["split", "m2", "m2split", "none", "badver", "m1", "split"]
+    vs = [v + (("ok",) if i % 4 else (sels[(i // 4) % len(sels)],)) for i, v in enumerate(vs)]
     if tier == "thorough":
         for p in range(65536):
-            vs.append(("CONNECT", "host", "p.example", p))
-            vs.append(("CONNECT", "v4", "10.11.12.13", p))
-            vs.append(("CONNECT", "v6", "2001:db8::1", p))
+            vs.append(("CONNECT", "host", "p.example", p, "ok"))
+            vs.append(("CONNECT", "v4", "10.11.12.13", p, "split" if p % 2 else "ok"))
+            vs.append(("CONNECT", "v6", "2001:db8::1", p, "ok"))
     return vs
 
 
@@ -92,7 +97,7 @@ def run(pid, tier, seed):
     vs = vectors(tier, seed)
     recs = [sr.vector(*v) for v in vs]
     rep.cov["evaluations"] = len(recs)
-    rep.cov["distinct_nontrivial"] = len(set((r["req"], r["kind"], r["host"], r["port"]) for r in recs))
+    rep.cov["distinct_nontrivial"] = len(set((r["req"], r["kind"], r["host"], r["port"], r["sel"]) for r in recs))
     rep.cov["rule"] = ("vectors (request type x target x port): boundary and random hostnames (lengths 1..1000, non-ASCII), IPv4/IPv6 "
                        "literals (boundary + random), boundary ports%s; every vector goes through TorSocksEndpoint.connect / resolve / "
                        "resolve_ptr and is non-trivial (a request must be produced or refused); distinct by (type, target, port)"
@@ -124,8 +129,8 @@ def run(pid, tier, seed):
         else:
             nviol += 1
             if nviol <= 5:
-                rep.violation("request for %s %r port %d is not what RFC 1928 requires: first=%s second=%s err=%s"
-                              % (rec["req"], rec["host"][:40], rec["port"], bytes(rec["first"]).hex(),
+                rep.violation("request for %s %r port %d (method selection %s) is not what RFC 1928 requires: first=%s second=%s err=%s"
+                              % (rec["req"], rec["host"][:40], rec["port"], rec["sel"], bytes(rec["first"]).hex(),
                                  bytes(rec["second"][:48]).hex(), rec["err"]),
                               dict(property=pid, module="SocksReq", vector=rec))
     rep.cov["rejected_vectors"] = nviol
@@ -138,7 +143,7 @@ def run(pid, tier, seed):
 def replay(pid, path):
     p = json.load(open(path))
     v = p["vector"]
-    rec = sr.vector(v["req"], v["kind"], v["host"], v["port"])
+    rec = sr.vector(v["req"], v["kind"], v["host"], v["port"], v.get("sel", "ok"))
     t = dict(rec, steps=[1])
     t.pop("host")
     res, r = tlc.validate_traces("SocksReqTrace", "SocksReqTrace.cfg", [t])
